@@ -1,4 +1,4 @@
-CONSTANTS Universe = "T3"  NLocs = 3  Wrap = TRUE  MaxDepth = 99  RelateAll = FALSE
+CONSTANTS Universe = "T3"  NLocs = 3  Wrap = TRUE  Wrap2 = FALSE  Family = "none"  MaxDepth = 99  RelateAll = FALSE
 CONSTANTS Types = {"PRIMARY", "SYMLINK"}
 CONSTANTS PathSeq <- MCPathSeq  LocSeq <- MCLocSeq  WrapsOf <- MCWrapsOf  MountFrom <- MCMountFrom  MountTo <- MCMountTo
 INIT TInit
